@@ -37,6 +37,11 @@ func runC02(c *Ctx) {
 	// live-set rule of C13, as a clause of this property)
 	c.withOnly(map[string]string{"C13.1-live-current-and-update": "C02.10-chosen-revisions-survive-the-truncation"}, nil, "C02.10-live-set", 2, func() { runC13(c) })
 	c.withOnly(map[string]string{"C10.1-membership-filter": "C02.9-every-member-is-claimed"}, nil, "C02.9-claim-filter", 1, c.claimConstruction)
+	// "goes quiet": the probe revision a converged reconcile builds is recognised as the stored update revision whatever
+	// the collision count has become -- equality is decided on the data, and the hash label (which has the collision
+	// count mixed in) may only short-cut it when it parses as a number; otherwise every reconcile after one name
+	// collision issues a create that is answered AlreadyExists (the equality rule of C08.2, as a clause of this property)
+	c.withOnly(map[string]string{"C08.2-hash-label-only-when-numeric": "C02.11-equal-revisions-are-recognised-whatever-the-collision-count"}, nil, "C02.11-revision-equality", 1, func() { c.equalityReadsDataOnly("C08.2") })
 	c.quiescencePossible()
 	c.statusWriteGuard()
 	c.stateless("C02.3")
